@@ -551,7 +551,13 @@ func TestOrderUnderBacklog(t *testing.T) {
 				e.perm.Resume()
 				fail(err.Error())
 			}
-			time.Sleep(150 * time.Millisecond)
+			for i := 0; i < 600; i++ { // until the presence queue is full behind the watcher that is not reading (at most 3 s)
+				if n, c := e.b.S.VerifPresence().VerifQueueLen(); n >= c {
+					break
+				}
+				time.Sleep(5 * time.Millisecond)
+			}
+			time.Sleep(20 * time.Millisecond)
 			e.perm.Resume()
 			ack, ev := byte(packets.Suback), "subscribe"
 			if phase == 1 {
